@@ -86,6 +86,15 @@ def gen_transformer(rng, width, depth, names):
             cols = sorted(rng.choice(width, k, replace=False).tolist())
             used.update(cols)
             sel = [names[c] for c in cols] if by_name else [int(c) for c in cols]
+            # the same selection in another container (what df.columns[...] or numpy.arange(...) hand over)
+            cont = rng.randint(4)
+            if cont == 1:
+                sel = numpy.array(sel, dtype=object if by_name else numpy.int64)
+            elif cont == 2 and by_name:
+                import pandas
+                sel = pandas.Index(sel)
+            elif cont == 3:
+                sel = tuple(sel)
             if rng.rand() < 0.25:
                 o, wi, di = "passthrough", k, "pass"
             else:
@@ -117,11 +126,15 @@ def gen_program(rng, tier):
     from sklearn.tree import DecisionTreeClassifier
     import pandas
     width = int(rng.randint(2, 6))
-    n = 30
+    wide = rng.rand() < 0.1
+    if wide:
+        width = int(rng.randint(24, 34))     # a wide table: long column selections
+    n = 30 if not wide else 60
     X = rng.randn(n, width)
     y = (X[:, 0] + X[:, 1] > 0).astype(int)
     schema = ["frame", "array", "names"][rng.randint(3)]
-    names = ["a", "bb", "c", "d2", "e"][:width] if schema != "array" else None
+    base_names = ["a", "bb", "c", "d2", "e"] if not wide else ["column_%02d" % i for i in range(width)]
+    names = base_names[:width] if schema != "array" else None
     depth = 3 if tier == "quick" else 4
     nsteps = int(rng.randint(1, 4))
     steps, desc, w = [], [], width
